@@ -172,6 +172,64 @@ fn fund(app: &mut App) {
 
 /// `stage` selects how far into its life the contract is taken (0 = just created)
 pub fn setup(c: Contract, stage: u8) -> Result<Setup, String> {
+    setup_opt(c, stage, 0)
+}
+
+/// which whitelist contract a minter variant can be given
+fn whitelist_for(app: &mut App, c: Contract, now: u64, start: u64) -> Result<Addr, String> {
+    use Contract::*;
+    let (ws, we) = ((now + 5_000_000_000).to_string(), start.to_string());
+    let (code, msg, fee): (Box<dyn cw_multi_test::Contract<Empty>>, Value, u128) = match c {
+        VendingMinterWlFlex | VendingMinterWlFlexFeatured | OpenEditionMinterWlFlex => (
+            chain::whitelist_flex(),
+            json!({"members": [{"address": BUYER, "mint_count": 2}], "start_time": ws, "end_time": we, "mint_price": coin_json(MINT_PRICE, NATIVE),
+                "member_limit": 1000, "admins": [CREATOR], "admins_mutable": true, "whale_cap": null}),
+            100_000_000,
+        ),
+        VendingMinterMerkleWl | VendingMinterMerkleWlFeatured | OpenEditionMinterMerkleWl => (
+            chain::whitelist_merkletree(),
+            json!({"merkle_root": "5ab281bca33c9819e0daa0708d20ddd8a1a5a2cc4e6e3a4e7a96b5a8e1b4c2d7", "merkle_tree_uri": null,
+                "start_time": ws, "end_time": we, "mint_price": coin_json(MINT_PRICE, NATIVE), "per_address_limit": 2, "admins": [CREATOR], "admins_mutable": true}),
+            1_000_000_000,
+        ),
+        _ => (
+            chain::whitelist(),
+            json!({"members": [BUYER], "start_time": ws, "end_time": we, "mint_price": coin_json(MINT_PRICE, NATIVE), "per_address_limit": 2,
+                "member_limit": 1000, "admins": [CREATOR], "admins_mutable": true}),
+            100_000_000,
+        ),
+    };
+    let code = app.store_code(code);
+    app.instantiate_contract(code, Addr::unchecked(CREATOR), &msg, &coins(fee, NATIVE), "wl", None).map_err(|e| format!("whitelist for {:?}: {:#}", c, e))
+}
+
+/// collection parameters with the optional fields in the other state: no external link,
+/// no royalty info, explicit flag and trading start given
+fn collection_params_alt(sg721_code: u64, start: u64) -> Value {
+    json!({"code_id": sg721_code, "name": "Collection Name", "symbol": "COL",
+        "info": {"creator": CREATOR, "description": "Stargaze Monkeys",
+            "image": "https://example.com/image.png", "external_link": null,
+            "explicit_content": true, "start_trading_time": (start + 3_600_000_000_000u64).to_string(),
+            "royalty_info": null}})
+}
+
+/// the contracts instantiated by a call, in creation order
+fn created(res: &cw_multi_test::AppResponse) -> Vec<Addr> {
+    let mut out = vec![];
+    for e in res.events.iter().filter(|e| e.ty == "instantiate") {
+        for a in e.attributes.iter().filter(|a| a.key == "_contract_address") {
+            out.push(Addr::unchecked(a.value.clone()));
+        }
+    }
+    out
+}
+
+/// `opt` selects the state of the OPTIONAL instantiate fields: 0 = the usual setup,
+/// 1 = every optional field in the other state (present <-> absent: payment address,
+/// whitelist, collection external link / royalty / explicit flag / trading start, token cap
+/// vs end time, tree URIs, splits admin and own group, whitelist admins), 2 = the "empty"
+/// variant where a field can also be an empty list.
+pub fn setup_opt(c: Contract, stage: u8, opt: u8) -> Result<Setup, String> {
     use Contract::*;
     let mut app = chain::new_app();
     fund(&mut app);
@@ -187,13 +245,14 @@ pub fn setup(c: Contract, stage: u8) -> Result<Setup, String> {
             let factory = app
                 .instantiate_contract(factory_code, Addr::unchecked(CREATOR), &vending_factory_params(minter_code, &[sg721_code]), &[], "factory", None)
                 .map_err(|e| format!("factory: {:#}", e))?;
+            let wl = if opt >= 1 { Some(whitelist_for(&mut app, minter_kind, now, start)?.to_string()) } else { None };
             let create = json!({"create_minter": {
-                "init_msg": {"base_token_uri": "ipfs://aldkfjads", "payment_address": null, "start_time": start.to_string(),
-                    "num_tokens": 20, "mint_price": coin_json(MINT_PRICE, NATIVE), "per_address_limit": 3, "whitelist": null},
-                "collection_params": collection_params(sg721_code)}});
-            exec_ok(&mut app, CREATOR, &factory, &create, &coins(CREATION_FEE, NATIVE))?;
-            let minter = Addr::unchecked("contract1");
-            let collection = Addr::unchecked("contract2");
+                "init_msg": {"base_token_uri": "ipfs://aldkfjads", "payment_address": if opt >= 1 { Some("payaddr") } else { None }, "start_time": start.to_string(),
+                    "num_tokens": 20, "mint_price": coin_json(MINT_PRICE, NATIVE), "per_address_limit": 3, "whitelist": wl},
+                "collection_params": if opt >= 1 { collection_params_alt(sg721_code, start) } else { collection_params(sg721_code) }}});
+            let res = chain::exec(&mut app, CREATOR, &factory, &create, &coins(CREATION_FEE, NATIVE)).map_err(|e| format!("create_minter {}: {}", create, e))?;
+            let made = created(&res);
+            let (minter, collection) = (made[0].clone(), made[1].clone());
             if stage >= 1 {
                 chain::set_time(&mut app, start + 1_000_000_000);
                 for _ in 0..3 {
@@ -222,14 +281,17 @@ pub fn setup(c: Contract, stage: u8) -> Result<Setup, String> {
             let factory = app
                 .instantiate_contract(factory_code, Addr::unchecked(CREATOR), &oe_factory_params(minter_code, &[sg721_code]), &[], "factory", None)
                 .map_err(|e| format!("factory: {:#}", e))?;
+            let wl = if opt >= 1 { Some(whitelist_for(&mut app, c, now, start)?.to_string()) } else { None };
             let create = json!({"create_minter": {
                 "init_msg": {"nft_data": {"nft_data_type": "off_chain_metadata", "extension": null, "token_uri": "ipfs://1234"},
-                    "start_time": start.to_string(), "end_time": (start + 86_400_000_000_000u64).to_string(),
-                    "mint_price": coin_json(MINT_PRICE, NATIVE), "per_address_limit": 5, "num_tokens": null,
-                    "payment_address": null, "whitelist": null},
-                "collection_params": collection_params(sg721_code)}});
-            exec_ok(&mut app, CREATOR, &factory, &create, &coins(CREATION_FEE, NATIVE))?;
-            let minter = Addr::unchecked("contract1");
+                    "start_time": start.to_string(),
+                    "end_time": if opt == 1 { None } else { Some((start + 86_400_000_000_000u64).to_string()) },
+                    "mint_price": coin_json(MINT_PRICE, NATIVE), "per_address_limit": 5,
+                    "num_tokens": if opt >= 1 { Some(50) } else { None },
+                    "payment_address": if opt >= 1 { Some("payaddr") } else { None }, "whitelist": wl},
+                "collection_params": if opt >= 1 { collection_params_alt(sg721_code, start) } else { collection_params(sg721_code) }}});
+            let res = chain::exec(&mut app, CREATOR, &factory, &create, &coins(CREATION_FEE, NATIVE)).map_err(|e| format!("create_minter {}: {}", create, e))?;
+            let minter = created(&res)[0].clone();
             if stage >= 1 {
                 chain::set_time(&mut app, start + 1_000_000_000);
                 for _ in 0..2 {
@@ -254,7 +316,7 @@ pub fn setup(c: Contract, stage: u8) -> Result<Setup, String> {
             let create = json!({"create_minter": {
                 "init_msg": {"base_token_uri": "ipfs://aldkfjads", "start_time": start.to_string(), "num_tokens": 20,
                     "mint_tokens": [{"collection": "contract2", "amount": 1}], "per_address_limit": 3},
-                "collection_params": collection_params(sg721_code)}});
+                "collection_params": if opt >= 1 { collection_params_alt(sg721_code, start) } else { collection_params(sg721_code) }}});
             exec_ok(&mut app, CREATOR, &factory, &create, &coins(CREATION_FEE, NATIVE))?;
             let minter = Addr::unchecked("contract1");
             if stage >= 1 {
@@ -270,12 +332,20 @@ pub fn setup(c: Contract, stage: u8) -> Result<Setup, String> {
         }
         BaseFactory | VendingFactory | OpenEditionFactory | TokenMergeFactory => {
             let code = app.store_code(c.code());
-            let params = match c {
-                BaseFactory => base_factory_params(7, &[1, 3, 5]),
-                VendingFactory => vending_factory_params(7, &[1, 3, 5]),
-                OpenEditionFactory => oe_factory_params(7, &[1, 3, 5]),
-                _ => tm_factory_params(7, &[1, 3, 5]),
+            let ids: &[u64] = match opt {
+                0 => &[1, 3, 5],
+                1 => &[3],
+                _ => &[],
             };
+            let mut params = match c {
+                BaseFactory => base_factory_params(7, ids),
+                VendingFactory => vending_factory_params(7, ids),
+                OpenEditionFactory => oe_factory_params(7, ids),
+                _ => tm_factory_params(7, ids),
+            };
+            if opt >= 1 {
+                params["params"]["frozen"] = json!(true);
+            }
             let addr = app
                 .instantiate_contract(code, Addr::unchecked(CREATOR), &params, &[], "factory", Some(CREATOR.to_string()))
                 .map_err(|e| format!("factory: {:#}", e))?;
@@ -305,33 +375,47 @@ pub fn setup(c: Contract, stage: u8) -> Result<Setup, String> {
             let scode = app.store_code(chain::splits());
             let gmsg = json!({"admin": "gadmin", "members": [{"addr": "m0001", "weight": 50}, {"addr": "m0002", "weight": 30}, {"addr": "m0003", "weight": 0}]});
             let group = app.instantiate_contract(gcode, Addr::unchecked(CREATOR), &gmsg, &[], "group", None).map_err(|e| format!("group: {:#}", e))?;
-            let smsg = json!({"admin": CREATOR, "group": {"cw4_address": group.to_string()}});
+            let smsg = if opt >= 1 {
+                // no admin, and the splits contract creates its own group
+                json!({"admin": null, "group": {"cw4_instantiate": {"code_id": gcode, "msg": cosmwasm_std::to_json_binary(&gmsg).unwrap(), "admin": null, "label": "own group"}}})
+            } else {
+                json!({"admin": CREATOR, "group": {"cw4_address": group.to_string()}})
+            };
             let addr = app
                 .instantiate_contract(scode, Addr::unchecked(CREATOR), &smsg, &[], "splits", Some(CREATOR.to_string()))
                 .map_err(|e| format!("splits: {:#}", e))?;
+            let distributor = if opt >= 1 { "m0001" } else { CREATOR };
             if stage >= 1 {
                 chain::mint_coins(&mut app, addr.as_str(), 1234, NATIVE);
-                exec_ok(&mut app, CREATOR, &addr, &json!({"distribute": {"denom_list": null}}), &[])?;
+                exec_ok(&mut app, distributor, &addr, &json!({"distribute": {"denom_list": null}}), &[])?;
             }
             if stage >= 2 {
-                exec_ok(&mut app, CREATOR, &addr, &json!({"update_admin": {"admin": BUYER}}), &[])?;
+                if opt == 0 {
+                    exec_ok(&mut app, CREATOR, &addr, &json!({"update_admin": {"admin": BUYER}}), &[])?;
+                }
                 chain::mint_coins(&mut app, addr.as_str(), 77, NATIVE);
             }
             finish(app, addr, c)
         }
         WhitelistMerkletree => {
             let code = app.store_code(c.code());
-            let msg = json!({"merkle_root": "5ab281bca33c9819e0daa0708d20ddd8a1a5a2cc4e6e3a4e7a96b5a8e1b4c2d7", "merkle_tree_uri": "ipfs://tree",
+            let msg = json!({"merkle_root": "5ab281bca33c9819e0daa0708d20ddd8a1a5a2cc4e6e3a4e7a96b5a8e1b4c2d7",
+                "merkle_tree_uri": if opt >= 1 { None } else { Some("ipfs://tree") },
                 "start_time": start.to_string(), "end_time": (start + 86_400_000_000_000u64).to_string(),
-                "mint_price": coin_json(MINT_PRICE, NATIVE), "per_address_limit": 3, "admins": [CREATOR], "admins_mutable": true});
+                "mint_price": coin_json(MINT_PRICE, NATIVE), "per_address_limit": 3,
+                "admins": if opt == 2 { vec![] } else { vec![CREATOR] }, "admins_mutable": opt == 0});
             let addr = app
                 .instantiate_contract(code, Addr::unchecked(CREATOR), &msg, &coins(1_000_000_000, NATIVE), "wl", Some(CREATOR.to_string()))
                 .map_err(|e| format!("whitelist-merkletree: {:#}", e))?;
-            if stage >= 1 {
+            if stage >= 1 && opt == 0 {
                 exec_ok(&mut app, CREATOR, &addr, &json!({"update_admins": {"admins": [CREATOR, BUYER]}}), &[])?;
             }
             if stage >= 2 {
-                exec_ok(&mut app, BUYER, &addr, &json!({"update_end_time": (start + 80_000_000_000_000u64).to_string()}), &[])?;
+                if opt == 0 {
+                    exec_ok(&mut app, BUYER, &addr, &json!({"update_end_time": (start + 80_000_000_000_000u64).to_string()}), &[])?;
+                } else if opt == 1 {
+                    exec_ok(&mut app, CREATOR, &addr, &json!({"update_end_time": (start + 80_000_000_000_000u64).to_string()}), &[])?;
+                }
                 chain::set_time(&mut app, start + 1_000_000_000);
             }
             finish(app, addr, c)
@@ -339,14 +423,19 @@ pub fn setup(c: Contract, stage: u8) -> Result<Setup, String> {
         TieredWhitelistMerkletree => {
             let code = app.store_code(c.code());
             let stage_json = |name: &str, s: u64, e: u64| json!({"name": name, "start_time": s.to_string(), "end_time": e.to_string(),
-                "mint_price": coin_json(MINT_PRICE, NATIVE), "per_address_limit": 3, "mint_count_limit": null});
+                "mint_price": coin_json(MINT_PRICE, NATIVE), "per_address_limit": 3, "mint_count_limit": if opt >= 1 { Some(10) } else { None }});
+            let uris: Value = match opt {
+                0 => json!(["ipfs://tree1", "ipfs://tree2"]),
+                1 => Value::Null, // never stored: MerkleTreeURIs answers null
+                _ => json!([]),   // an empty list is not stored either
+            };
             let msg = json!({"stages": [stage_json("one", start, start + 1_000_000_000_000), stage_json("two", start + 2_000_000_000_000, start + 3_000_000_000_000)],
                 "merkle_roots": ["5ab281bca33c9819e0daa0708d20ddd8", "6ab281bca33c9819e0daa0708d20ddd8"],
-                "merkle_tree_uris": ["ipfs://tree1", "ipfs://tree2"], "admins": [CREATOR], "admins_mutable": true});
+                "merkle_tree_uris": uris, "admins": if opt == 2 { vec![] } else { vec![CREATOR] }, "admins_mutable": opt == 0});
             let addr = app
                 .instantiate_contract(code, Addr::unchecked(CREATOR), &msg, &coins(1_000_000_000, NATIVE), "twl", Some(CREATOR.to_string()))
                 .map_err(|e| format!("tiered-whitelist-merkletree: {:#}", e))?;
-            if stage >= 1 {
+            if stage >= 1 && opt == 0 {
                 exec_ok(&mut app, CREATOR, &addr, &json!({"update_admins": {"admins": [CREATOR, BUYER]}}), &[])?;
             }
             if stage >= 2 {
@@ -368,7 +457,10 @@ pub fn is_minter(c: Contract) -> bool {
 /// 2 explicit; gov = 8 stands for "all false, but explicitly set"); factories: gov = 1
 /// freezes the factory and moves several parameters.  gov = 0: governance never acted.
 pub fn setup_gov(c: Contract, stage: u8, gov: u8) -> Result<Setup, String> {
-    let mut s = setup(c, stage)?;
+    setup_gov_opt(c, stage, gov, 0)
+}
+pub fn setup_gov_opt(c: Contract, stage: u8, gov: u8, opt: u8) -> Result<Setup, String> {
+    let mut s = setup_opt(c, stage, opt)?;
     if gov == 0 {
         return Ok(s);
     }
